@@ -585,9 +585,12 @@ Section Fix.
   Definition check_run (o : copts) (c : content) (par : parity) (fs : list (option fsdisk)) (objs : list obj)
              (positions : list nat) : outcome :=
     let s0 := mkRS fs [] par 0 0 0 [] 0%N in
-    match positions with
-    | [] => mkOut s0 false          (* blockstart >= blockmax: nothing is processed at all, links and dirs included *)
-    | _ =>
+    (* state_check: `if (blockstart < blockmax || blockmax == 0)`: a start beyond the end skips everything, links and dirs
+       included; an array without any block still has its empty files, links and dirs processed (repaired by 1f26379:
+       before, the second disjunct was missing and such an array was never checked nor fixed) *)
+    match positions, c_blockmax c with
+    | [], S _ => mkOut s0 false
+    | _, _ =>
       let s1 := fold_left (fun s pos => if block_enabled o c pos then stripe_step o c fs s pos else s) positions s0 in
       let s2 := fold_left (obj_step o c) objs s1 in
       let s3 := cleanup o s2 in
